@@ -145,17 +145,15 @@ func main() {
 	if pf := os.Getenv("VERIF_CPUPROFILE"); pf != "" {
 		if fh, err := os.Create(pf); err == nil {
 			pprof.StartCPUProfile(fh)
-			go func() {
-				time.Sleep(90 * time.Second)
-				pprof.StopCPUProfile()
-				fh.Close()
-			}()
 		}
 	}
 	phaseT := map[string]float64{}
 	mark := time.Now()
 	lap := func(name string) {
 		phaseT[name] = float64(int(time.Since(mark).Seconds()*100)) / 100
+		if name == os.Getenv("VERIF_PROFILE_UNTIL") {
+			pprof.StopCPUProfile()
+		}
 		if os.Getenv("VERIF_VERBOSE") != "" {
 			fmt.Fprintf(os.Stderr, "[c18] %-24s %7.2fs  evals=%d\n", name, phaseT[name], atomic.LoadInt64(&c.evals))
 		}
@@ -166,12 +164,22 @@ func main() {
 	var vals []*gridValue
 	unsupported := map[string]bool{}
 	nRoots := 0
+	var allRoots []*rootSpec
 	for _, f := range c.fams {
 		for i := range f.Roots {
-			nRoots++
-			for _, u := range f.Roots[i].grid(func(g *gridValue) { vals = append(vals, g) }) {
-				unsupported[f.Roots[i].Name+u] = true
-			}
+			allRoots = append(allRoots, &f.Roots[i])
+		}
+	}
+	nRoots = len(allRoots)
+	perRoot := make([][]*gridValue, nRoots)
+	perRootUns := make([][]string, nRoots)
+	core.Par(nRoots, func(i int) {
+		perRootUns[i] = allRoots[i].grid(func(g *gridValue) { perRoot[i] = append(perRoot[i], g) })
+	})
+	for i := range perRoot {
+		vals = append(vals, perRoot[i]...)
+		for _, u := range perRootUns[i] {
+			unsupported[allRoots[i].Name+u] = true
 		}
 	}
 	for u := range unsupported {
